@@ -235,7 +235,15 @@ def build_job(sb: Sandbox, options: dict, sigma: dict, faults: list, extra: dict
         if cands:
             src_sub = os.path.join(dirpath, cands[0])
         break
+    src_testdir = src_sub
+    for dirpath, dirnames, _f in os.walk(sb.src):
+        dirnames.sort()
+        hit = sorted(d for d in dirnames if d in ("test", "tests", "docs"))
+        if hit:
+            src_testdir = os.path.join(dirpath, hit[0])
+            break
     cwd = {
+        "src_testdir": src_testdir,
         "root": sb.root,
         "proj": sb.proj,
         "work": os.path.join(sb.root, "S/work"),
